@@ -37,6 +37,7 @@ type gthread struct {
 	bg     bool // adopted goroutine (spawned by the code under test)
 	want   any  // modelled mutex this thread is waiting to acquire (nil: none)
 	wantW  bool
+	cond   func() bool // extra enabling condition of the gate it is parked at (nil: none); called with s.mu held
 }
 
 // lockModel mirrors the mutexes of instrumented files so that a thread is never
@@ -69,7 +70,45 @@ type gsched struct {
 	// scheduling decision (so that a timer can fire while threads are still enabled).
 	TickBudget int
 	TickStep   time.Duration
+	TickCond   func() bool // extra condition for the clock option; called with s.mu held
 	poison     bool
+}
+
+// GateIf is a gate that is enabled only while cond holds.
+func (s *gsched) GateIf(label string, cond func() bool) {
+	s.mu.Lock()
+	if th := s.byG[goid()]; th != nil {
+		th.cond = cond
+	}
+	s.mu.Unlock()
+	s.yield(label)
+}
+
+// othersInFlight reports whether a harness thread other than the caller's has been
+// released and has neither reached its next gate nor finished (at quiescence: it is
+// blocked in a channel operation). Call with s.mu held.
+func (s *gsched) othersInFlight(self *gthread) bool {
+	for _, th := range s.threads {
+		if th != self && !th.bg && !th.parked && !th.done {
+			return true
+		}
+	}
+	return false
+}
+
+func (s *gsched) current() *gthread {
+	s.mu.Lock()
+	defer s.mu.Unlock()
+	return s.byG[goid()]
+}
+
+func (s *gsched) threadNamed(name string) *gthread {
+	for _, th := range s.threads {
+		if th.name == name {
+			return th
+		}
+	}
+	return nil
 }
 
 // schedPoison unwinds a thread that is abandoned at a gate (see poisonAll).
@@ -232,6 +271,12 @@ func (s *gsched) run(c *mc.Ctx, maxSteps int) (ok bool, why string) {
 				}
 				continue
 			}
+			if th.parked && th.cond != nil && !th.cond() {
+				if !th.bg {
+					alldone = false
+				}
+				continue
+			}
 			if th.parked {
 				if th.bg && s.BgLast {
 					bgs = append(bgs, th)
@@ -246,8 +291,9 @@ func (s *gsched) run(c *mc.Ctx, maxSteps int) (ok bool, why string) {
 		if len(en) == 0 {
 			en = bgs
 		}
+		tickOK := s.TickBudget > 0 && (s.TickCond == nil || s.TickCond())
 		s.mu.Unlock()
-		if len(en) == 0 && s.TickBudget > 0 && !alldone && lockWaiters == 0 {
+		if len(en) == 0 && tickOK && !alldone && lockWaiters == 0 {
 			s.TickBudget--
 			s.Trace = append(s.Trace, "tick")
 			time.Sleep(s.TickStep)
@@ -281,7 +327,7 @@ func (s *gsched) run(c *mc.Ctx, maxSteps int) (ok bool, why string) {
 		}
 		ch := 0
 		nopt := len(en)
-		if s.TickBudget > 0 {
+		if tickOK {
 			nopt++ // last option: let the clock advance instead
 		}
 		if nopt > 1 {
@@ -289,7 +335,7 @@ func (s *gsched) run(c *mc.Ctx, maxSteps int) (ok bool, why string) {
 			for i, th := range en {
 				names[i] = th.name
 			}
-			if cost == 0 && s.TickBudget > 0 {
+			if cost == 0 && tickOK {
 				cost = 1
 			}
 			ch = c.ChooseCost(nopt, "sched:"+strings.Join(names, ","), cost)
@@ -306,6 +352,7 @@ func (s *gsched) run(c *mc.Ctx, maxSteps int) (ok bool, why string) {
 		s.last = th
 		s.mu.Lock()
 		th.parked = false
+		th.cond = nil
 		if th.want != nil {
 			l := s.locks[th.want]
 			if th.wantW {
